@@ -382,6 +382,8 @@ class TList(T):
         return [z3.IntSort()] + [z3.ArraySort(z3.IntSort(), s) for s in self.t.sorts()]
 
     def flat(self, v):
+        if isinstance(v, Opt):
+            v = v.val           # an optional list used where a list is expected (the None case is excluded by the path condition)
         v = to_slist(v, self.t)
         return [v.n] + list(v.comps)
 
